@@ -271,6 +271,8 @@ func (t *translator) leanType(ty types.Type) (string, error) {
 			return "Bytes", nil
 		case "bufio.Reader", "bytes.Reader":
 			return "Go.Reader", nil
+		case "hash.Hash":
+			return "Go.Mac", nil
 		}
 		if l, ok := t.extern.Types[key]; ok && (l == "" || obj.Pkg().Path() != t.curPkg) {
 			if l == "" {
@@ -351,6 +353,9 @@ func (t *translator) zero(ty types.Type) (string, error) {
 		}
 		if lt == "Bytes" || lt == "Go.Reader" {
 			return "([] : Bytes)", nil
+		}
+		if lt == "Go.Mac" {
+			return "({} : Go.Mac)", nil
 		}
 		if _, ok := ty.Underlying().(*types.Interface); ok {
 			return "(" + lt + ".nil_)", nil
